@@ -51,6 +51,7 @@ Qed.
 
 Lemma unescape_id : forall s, existsb bs_or_cr s = false -> unescape s = UOk s.
 Proof.
+  unfold unescape.
   induction s as [|c r IH]; intros H; [reflexivity|].
   simpl in H. apply orb_false_iff in H. destruct H as [Hc Hr].
   unfold bs_or_cr in Hc. apply orb_false_iff in Hc. destruct Hc as [H92 _].
@@ -445,4 +446,142 @@ Example round64Z_is_binary64_conversion :
      9223372036854775295; 9223372036854774784; 9223372036854775290; 1152921504606846977; 123456789012345678] = true
   /\ round64Z 9007199254740993 = 9007199254740992 /\ round64Z 9007199254740995 = 9007199254740996
   /\ round64Z (-9007199254740993) = -9007199254740992 /\ round64Z 18446744073709551615 = 18446744073709551616.
+Proof. vm_compute. repeat split; reflexivity. Qed.
+
+(* ------------------------------------------------------------------ escaped string literals *)
+(* a literal that contains a backslash gets no shortcut, alone or as a part of a chain *)
+Definition has_escaped_lit (c : ccmp) : Prop := exists raw, c_lit c = LStr raw /\ In 92%N raw.
+
+Lemma existsb_bs : forall raw, In 92%N raw -> existsb (fun c => N.eqb c 92 || N.eqb c 13) raw = true.
+Proof.
+  intros raw H. apply existsb_exists. exists 92%N. split; [assumption|reflexivity].
+Qed.
+
+Lemma escaped_cmp_not_compiled : forall c, has_escaped_lit c -> compile_fast_cmp c = None.
+Proof.
+  intros c [raw [Hl Hin]]. unfold compile_fast_cmp. rewrite Hl.
+  destruct (bytes_eqb (c_field c) w_nil || bytes_eqb (c_field c) w_true || bytes_eqb (c_field c) w_false); [reflexivity|].
+  unfold str_plain. rewrite (existsb_bs raw Hin). reflexivity.
+Qed.
+
+Theorem escaped_literal_never_shortcut : forall (s : shape) (r : row),
+  match s with
+  | SCmp c => has_escaped_lit c
+  | SChain _ cs => exists c, In c cs /\ has_escaped_lit c
+  end ->
+  compile_fast s = None /\ fast s r = None /\ evaluate s r = eval_general s r.
+Proof.
+  intros s r H.
+  assert (Hc : compile_fast s = None).
+  { destruct s as [c|a cs].
+    - unfold compile_fast, compile_fast_with. rewrite (escaped_cmp_not_compiled c H). reflexivity.
+    - destruct H as [c [Hin He]]. apply chain_not_compiled. exists c. split; [assumption|].
+      apply escaped_cmp_not_compiled. assumption. }
+  assert (Hf : fast s r = None) by (unfold fast; rewrite Hc; reflexivity).
+  split; [assumption|]. split; [assumption|]. unfold evaluate. rewrite Hf. reflexivity.
+Qed.
+
+(* the digits *)
+Lemma hex_val_lt16 : forall c d, hex_val c = Some d -> (d < 16)%N.
+Proof.
+  intros c d H. unfold hex_val, in_rng in H.
+  destruct ((48 <=? c)%N && (c <=? 57)%N) eqn:E1.
+  { apply andb_true_iff in E1. destruct E1 as [A B]. apply N.leb_le in A. apply N.leb_le in B.
+    inversion H; subst d. lia. }
+  destruct ((97 <=? c)%N && (c <=? 102)%N) eqn:E2.
+  { apply andb_true_iff in E2. destruct E2 as [A B]. apply N.leb_le in A. apply N.leb_le in B.
+    inversion H; subst d. lia. }
+  destruct ((65 <=? c)%N && (c <=? 70)%N) eqn:E3; [|discriminate].
+  apply andb_true_iff in E3. destruct E3 as [A B]. apply N.leb_le in A. apply N.leb_le in B.
+  inversion H; subst d. lia.
+Qed.
+
+Lemma oct_val_lt8 : forall c d, oct_val c = Some d -> (d < 8)%N.
+Proof.
+  intros c d H. unfold oct_val, in_rng in H.
+  destruct ((48 <=? c)%N && (c <=? 55)%N) eqn:E1; [|discriminate].
+  apply andb_true_iff in E1. destruct E1 as [A B]. apply N.leb_le in A. apply N.leb_le in B.
+  inversion H; subst d. lia.
+Qed.
+
+Lemma esc_value_small : forall kind v, kind <> 2%N -> (v <= max_rune)%N -> esc_value kind v = Some (utf8_encode v).
+Proof.
+  intros kind v Hk Hv. unfold esc_value.
+  destruct (N.eqb kind 2) eqn:E; [apply N.eqb_eq in E; contradiction|]. simpl.
+  destruct (max_rune <? v)%N eqn:E2; [apply N.ltb_lt in E2; lia|reflexivity].
+Qed.
+
+Lemma uapp_nil : forall u, uapp [] u = u.
+Proof. intros u. destruct u; reflexivity. Qed.
+
+Lemma unesc_step : forall st c r st' out,
+  estep st c = Some (st', out) -> unesc st (c :: r) = uapp out (unesc st' r).
+Proof. intros st c r st' out H. simpl. rewrite H. reflexivity. Qed.
+
+(* \xHH inside a literal is the CODE POINT HH written as UTF-8 *)
+Theorem unescape_hex_escape : forall h l hv lv rest,
+  hex_val h = Some hv -> hex_val l = Some lv ->
+  unescape (92 :: 120 :: h :: l :: rest)%N = uapp (utf8_encode (hv * 16 + lv)%N) (unescape rest).
+Proof.
+  intros h l hv lv rest Hh Hl. unfold unescape.
+  pose proof (hex_val_lt16 h hv Hh) as Bh. pose proof (hex_val_lt16 l lv Hl) as Bl.
+  rewrite (unesc_step ESText 92%N _ ESEsc []) by reflexivity. rewrite uapp_nil.
+  rewrite (unesc_step ESEsc 120%N _ (ESHex 0 2 0) []) by reflexivity. rewrite uapp_nil.
+  rewrite (unesc_step (ESHex 0 2 0) h _ (ESHex 0 1 hv) []).
+  2:{ simpl. unfold hex_step. rewrite Hh. reflexivity. }
+  rewrite uapp_nil.
+  rewrite (unesc_step (ESHex 0 1 hv) l _ ESText (utf8_encode (hv * 16 + lv)%N)).
+  2:{ simpl. unfold hex_step. rewrite Hl.
+      rewrite (esc_value_small 0%N); [reflexivity | discriminate | unfold max_rune; lia]. }
+  reflexivity.
+Qed.
+
+(* \ooo (first digit 0-3) likewise *)
+Theorem unescape_octal_escape : forall a b c av bv cv rest,
+  oct_val a = Some av -> (av < 4)%N -> oct_val b = Some bv -> oct_val c = Some cv ->
+  unescape (92 :: a :: b :: c :: rest)%N = uapp (utf8_encode ((av * 8 + bv) * 8 + cv)%N) (unescape rest).
+Proof.
+  intros a b c av bv cv rest Ha Ha4 Hb Hc. unfold unescape.
+  pose proof (oct_val_lt8 b bv Hb) as Bb. pose proof (oct_val_lt8 c cv Hc) as Bc.
+  assert (Ea : estep ESEsc a = Some (ESOct 2 av, [])).
+  { unfold oct_val, in_rng in Ha.
+    destruct ((48 <=? a)%N && (a <=? 55)%N) eqn:E1; [|discriminate].
+    apply andb_true_iff in E1. destruct E1 as [A B]. apply N.leb_le in A. apply N.leb_le in B.
+    inversion Ha; subst av.
+    assert (Hr : (a = 48 \/ a = 49 \/ a = 50 \/ a = 51)%N) by lia.
+    destruct Hr as [Hr|[Hr|[Hr|Hr]]]; subst a; reflexivity. }
+  rewrite (unesc_step ESText 92%N _ ESEsc []) by reflexivity. rewrite uapp_nil.
+  rewrite (unesc_step ESEsc a _ _ _ Ea). rewrite uapp_nil.
+  rewrite (unesc_step (ESOct 2 av) b _ (ESOct 1 (av * 8 + bv)%N) []).
+  2:{ simpl. rewrite Hb. reflexivity. }
+  rewrite uapp_nil.
+  rewrite (unesc_step (ESOct 1 (av * 8 + bv)%N) c _ ESText (utf8_encode ((av * 8 + bv) * 8 + cv)%N)).
+  2:{ simpl. rewrite Hc.
+      rewrite (esc_value_small 4%N); [reflexivity | discriminate | unfold max_rune; lia]. }
+  reflexivity.
+Qed.
+
+(* ... and a code point above ASCII never is one byte (strconv.Unquote would give the byte HH) *)
+Theorem utf8_encode_above_ascii : forall v, (128 <= v)%N -> (2 <= length (utf8_encode v))%nat.
+Proof.
+  intros v Hv. unfold utf8_encode.
+  destruct (v <? 128)%N eqn:E; [apply N.ltb_lt in E; lia|].
+  destruct (v <? 2048)%N; [simpl; lia|].
+  destruct (in_rng 55296 57343 v || (max_rune <? v)%N); [simpl; lia|].
+  destruct (v <? 65536)%N; simpl; lia.
+Qed.
+
+(* x == 'caf\xe9': the general evaluator accepts "café" (UTF-8) and rejects the Latin-1 bytes; a shortcut
+   that compared with the byte reading of the literal would answer the opposite on both rows; the
+   shortcut of the code declines *)
+Lemma escaped_hex_byte_reading_refuted :
+  let lit := [99; 97; 102; 92; 120; 101; 57]%N in
+  let s := SCmp (mkCmp fx OEq2 (LStr lit)) in
+  let utf := row1 (VStr [99; 97; 102; 195; 169]%N) in
+  let lat := row1 (VStr [99; 97; 102; 233]%N) in
+  let bytefast := mkF fx OEq2 (FLStr [99; 97; 102; 233]%N) in
+  compiles s = true /\ str_value lit = UOk [99; 97; 102; 195; 169]%N /\
+  general s utf = GB true /\ general s lat = GB false /\
+  fast_cmp_eval bytefast utf = Some false /\ fast_cmp_eval bytefast lat = Some true /\
+  fast s utf = None /\ fast s lat = None.
 Proof. vm_compute. repeat split; reflexivity. Qed.
